@@ -682,8 +682,8 @@ def _set_index(case, ctx, pdf, ddf):
         feat = "set_index:%s:%s-column%s%s%s" % (fmode, ck, "&na-values" if hasna else "", allna, pres)
     emode = "quantile-divisions" if hasna and mode in ("plain", "npartitions") else mode
     efeat = "set_index:%s%s" % (emode, "&%s-column&na-values%s" % (ck, allna) if hasna else
-                                "&empty-frame" if len(pdf) == 0 and mode == "sorted" else
                                 "&category-column" if ck.startswith("category") and mode == "sorted" else
+                                "&empty-frame" if len(pdf) == 0 and mode == "sorted" else
                                 "&bool-column" if ck == "bool" and mode == "sorted" else "")
     refine = None
     desc = dict(case, input_npartitions=ddf.npartitions, kwargs={k: str(v)[:120] for k, v in kw.items()})
